@@ -117,6 +117,26 @@ def long_and_large():
     yield "DSKIP(30000)\nDSKIP(30000)\nDLABEL(d)\nSET(R1, d)\nINTEGER(1)\nDLABEL(e)\nSET(R2, e)\n"
 
 
+def huge_literals_everywhere():
+    """a literal too long for str(int) (hexadecimal, binary, octal: int() converts these without limit, printing them is what
+    fails) in every operand position of every operation, once and repeated (so that the declaration rules see it twice)"""
+    import hera.op as O
+    bigs = ["0x" + "F" * 5000, "0b" + "1" * 20000, "0o" + "7" * 6000, "-0x" + "F" * 5000]
+    fill = {"REGISTER": "R1", "REGISTER_OR_LABEL": "R1", "LABEL_TYPE": "lbl", "STRING": '"s"'}
+    k = 0
+    for name in sorted(O.name_to_class):
+        P = getattr(O.name_to_class[name], "P", ())
+        arity = max(1, len(P))
+        base = [fill.get(str(getattr(t, "__name__", t)), "1") for t in P] or ["1"]
+        for pos in range(arity):
+            args = list(base)
+            args[pos] = bigs[k % len(bigs)]
+            k += 1
+            stmt = "{}({})".format(name, ", ".join(args))
+            yield stmt + "\n"
+            yield stmt + "\n" + stmt + "\n"
+
+
 def symbol_pairs():
     for a in SYMBOL_STATEMENTS:
         for b in SYMBOL_STATEMENTS:
@@ -166,7 +186,7 @@ def check(seed, n):
     violations, seen = [], set()
     dist = {"accepted": 0, "with_diagnostics": 0, "silent_rejects": 0}
     evals = 0
-    pairs = list(symbol_pairs()) + list(long_and_large())
+    pairs = list(symbol_pairs()) + list(long_and_large()) + list(huge_literals_everywhere())
     try:
         for k in range(n + len(pairs)):
             if k < n:
